@@ -174,6 +174,7 @@ let monitors : (string * (config -> n list -> n list option -> bool)) list = [
   ("C15udp", ok_C15_udp);
   ("C15udp_strict", ok_C15_udp_strict);
   ("C17udp", ok_C17_udp);
+  ("C14udp_ref", ok_C14_udp_ref);            (* 'no signature completed' read on the published list *)
 ]
 
 (* monitors that read the implementation's compiled signature table (env) *)
